@@ -2,8 +2,11 @@ package props
 
 import (
 	"bytes"
+	"encoding/hex"
 	"fmt"
+	"google.golang.org/protobuf/reflect/protoreflect"
 	"reflect"
+	"strings"
 	"testing"
 
 	"github.com/google/go-tdx-guest/abi"
@@ -51,6 +54,108 @@ func scribble(v reflect.Value) {
 // c09Histories: parsing is a function of the bytes. A caller that edits a parsed message in place (it owns it) does
 // not change what later parses return - of the same bytes, or of other quotes that carry the same certificate chain.
 func c09Histories(t *testing.T) {
+	// two different quotes of the same length that agree under a cheap checksum (any CRC-32 / CRC-64 polynomial,
+	// Adler-32, byte sums), parsed one after the other: each parse is a function of ITS bytes
+	gen.Prop(t, "checksum-twins-parsed-in-a-row", gen.N(600, 40000), func(t *rapid.T) {
+		s := gen.NewStream(rapid.Uint64().Draw(t, "content"), "c09tw")
+		a := gen.RandomRefQuote(s, rapid.SampledFrom([]int{0, 32, 64}).Draw(t, "auth"), rapid.SampledFrom([]int{0, 10, 300, 3600}).Draw(t, "chain"), rapid.SampledFrom([]int{0, 5}).Draw(t, "extra"))
+		rawA := a.Encode()
+		rawB := append([]byte{}, rawA...)
+		// B differs from A somewhere in the header's user data or the body, and has free bytes elsewhere in the body
+		rawB[28+s.Intn(20+584)] ^= byte(1 + s.Intn(255))
+		tw := gen.ChecksumTwins[rapid.IntRange(0, len(gen.ChecksumTwins)-1).Draw(t, "checksum")]
+		pos := 48 + rapid.SampledFrom([]int{16, 64, 136, 184, 280, 328, 520}).Draw(t, "freeBytesAt") + s.Intn(40)
+		if !tw.Twin(rawA, rawB, pos) || bytes.Equal(rawA, rawB) {
+			t.Skip("no twin")
+		}
+		order := rapid.SampledFrom([]string{"AB", "ABA", "BAB", "AAB", "ABBA"}).Draw(t, "order")
+		for i, c := range order {
+			raw := map[rune][]byte{'A': rawA, 'B': rawB}[c]
+			gen.Eval()
+			m, err := abi.QuoteToProto(append([]byte{}, raw...))
+			if err != nil {
+				gen.Fail(t, gen.Violation{Key: "history:rejects-wellformed", Oracle: "accepts exactly the byte strings that follow the v4 layout", Detail: fmt.Sprintf("parse %d of %s (twins under %s): %v", i+1, order, tw.Name, err), Replay: map[string]any{"kind": "c09-twins", "a_hex": gen.Hex(rawA), "b_hex": gen.Hex(rawB), "order": order}})
+				return
+			}
+			back, err := abi.QuoteToAbiBytes(m.(*pb.QuoteV4))
+			if err != nil || !bytes.Equal(back, raw) {
+				gen.Fail(t, gen.Violation{Key: "history:roundtrip-bytes:checksum-twins", Oracle: "parse-then-serialise reproduces the quote byte for byte (whatever was parsed before)", Detail: fmt.Sprintf("parse %d of %s, A and B having the same length and the same %s: err=%v %s", i+1, order, tw.Name, err, firstDiff(back, raw)), Replay: map[string]any{"kind": "c09-twins", "a_hex": gen.Hex(rawA), "b_hex": gen.Hex(rawB), "order": order}})
+				return
+			}
+		}
+		gen.NonTrivial("c09twins", tw.Name, order, rawA[48:80])
+		gen.Class("history:checksum-twins:" + tw.Name)
+	})
+	// a parsed message belongs to the caller: a bytes field REPLACED by assignment (not edited in place) is what the
+	// serialiser writes, whichever field it is
+	gen.Prop(t, "parsed-message-with-a-field-replaced", gen.N(1500, 100000), func(t *rapid.T) {
+		s := gen.NewStream(rapid.Uint64().Draw(t, "content"), "c09rep")
+		a := gen.RandomRefQuote(s, rapid.SampledFrom([]int{0, 32, 64}).Draw(t, "auth"), rapid.SampledFrom([]int{0, 10, 300}).Draw(t, "chain"), rapid.SampledFrom([]int{0, 5}).Draw(t, "extra"))
+		raw := a.Encode()
+		gen.Eval()
+		m0, err := abi.QuoteToProto(append([]byte{}, raw...))
+		if err != nil {
+			gen.Fail(t, gen.Violation{Key: "history:rejects-wellformed", Oracle: "accepts exactly the byte strings that follow the v4 layout", Detail: err.Error(), Replay: map[string]any{"kind": "parse", "raw_hex": gen.Hex(raw)}})
+			return
+		}
+		q := m0.(*pb.QuoteV4)
+		if rapid.Bool().Draw(t, "throughClone") {
+			q = proto.Clone(q).(*pb.QuoteV4)
+		}
+		// every non-empty bytes field of the message tree, in a fixed order
+		type slot struct {
+			msg  protoreflect.Message
+			fd   protoreflect.FieldDescriptor
+			path string
+		}
+		var slots []slot
+		var walk func(m protoreflect.Message, path string)
+		walk = func(m protoreflect.Message, path string) {
+			fds := m.Descriptor().Fields()
+			for i := 0; i < fds.Len(); i++ {
+				fd := fds.Get(i)
+				switch {
+				case fd.IsList() || fd.IsMap():
+				case fd.Kind() == protoreflect.BytesKind && len(m.Get(fd).Bytes()) > 0:
+					slots = append(slots, slot{m, fd, path + string(fd.Name())})
+				case fd.Kind() == protoreflect.MessageKind && m.Has(fd):
+					walk(m.Get(fd).Message(), path+string(fd.Name())+".")
+				}
+			}
+		}
+		walk(q.ProtoReflect(), "")
+		if len(slots) == 0 {
+			t.Skip("no bytes fields")
+		}
+		nrep := rapid.IntRange(1, 2).Draw(t, "replacements")
+		var names []string
+		for r := 0; r < nrep; r++ {
+			sl := slots[rapid.IntRange(0, len(slots)-1).Draw(t, "field")]
+			old := sl.msg.Get(sl.fd).Bytes()
+			nv := s.Bytes(len(old))
+			nv[0] = old[0] ^ 0x5a
+			sl.msg.Set(sl.fd, protoreflect.ValueOfBytes(nv))
+			names = append(names, sl.path)
+		}
+		gen.Eval()
+		back, err := abi.QuoteToAbiBytes(q)
+		if err != nil {
+			// (a replaced field may make the message unserialisable - e.g. a signature component; that is a refusal)
+			gen.Class("history:field-replaced:refused")
+			return
+		}
+		m1, err := abi.QuoteToProto(append([]byte{}, back...))
+		if err != nil {
+			gen.Class("history:field-replaced:bytes-refused")
+			return
+		}
+		if !proto.Equal(q, m1.(*pb.QuoteV4)) {
+			gen.Fail(t, gen.Violation{Key: "history:roundtrip-message:field-replaced:" + names[0], Oracle: "serialise-then-parse reproduces the message (a parsed message whose field the caller replaced included)", Detail: fmt.Sprintf("parsed message with %v replaced by assignment: the serialised bytes parse to another message", names), Replay: map[string]any{"kind": "c09-field-replaced", "raw_hex": gen.Hex(raw), "fields": names}})
+			return
+		}
+		gen.NonTrivial("c09rep", names, raw[:40])
+		gen.Class("history:field-replaced:" + names[0])
+	})
 	gen.Prop(t, "parsed-messages-are-independent", gen.N(1500, 100000), func(t *rapid.T) {
 		s := gen.NewStream(rapid.Uint64().Draw(t, "content"), "c09h")
 		chainLen := rapid.SampledFrom([]int{0, 10, 300, 3600}).Draw(t, "chain")
@@ -214,6 +319,57 @@ func init() {
 		}
 		if back, err := abi.QuoteToAbiBytes(m); err != nil || !bytes.Equal(back, raw) {
 			return "a large quote does not survive the round trip"
+		}
+		return ""
+	}
+}
+
+func init() {
+	replayKinds["c09-twins"] = func(c map[string]any) string {
+		a, _ := hex.DecodeString(c["a_hex"].(string))
+		b, _ := hex.DecodeString(c["b_hex"].(string))
+		order, _ := c["order"].(string)
+		for i, ch := range order {
+			raw := map[rune][]byte{'A': a, 'B': b}[ch]
+			m, err := abi.QuoteToProto(append([]byte{}, raw...))
+			if err != nil {
+				return fmt.Sprintf("parse %d of %s: %v", i+1, order, err)
+			}
+			if back, err := abi.QuoteToAbiBytes(m); err != nil || !bytes.Equal(back, raw) {
+				return fmt.Sprintf("parse %d of %s does not reproduce its input", i+1, order)
+			}
+		}
+		return ""
+	}
+}
+
+func init() {
+	replayKinds["c09-field-replaced"] = func(c map[string]any) string {
+		raw, _ := hex.DecodeString(c["raw_hex"].(string))
+		m0, err := abi.QuoteToProto(raw)
+		if err != nil {
+			return "rejects: " + err.Error()
+		}
+		q := m0.(*pb.QuoteV4)
+		fields, _ := c["fields"].([]any)
+		for _, f := range fields {
+			m := q.ProtoReflect()
+			parts := strings.Split(f.(string), ".")
+			for _, p := range parts[:len(parts)-1] {
+				m = m.Get(m.Descriptor().Fields().ByName(protoreflect.Name(p))).Message()
+			}
+			fd := m.Descriptor().Fields().ByName(protoreflect.Name(parts[len(parts)-1]))
+			nv := append([]byte{}, m.Get(fd).Bytes()...)
+			nv[0] ^= 0x5a
+			m.Set(fd, protoreflect.ValueOfBytes(nv))
+		}
+		back, err := abi.QuoteToAbiBytes(q)
+		if err != nil {
+			return ""
+		}
+		m1, err := abi.QuoteToProto(back)
+		if err == nil && !proto.Equal(q, m1.(*pb.QuoteV4)) {
+			return "a parsed message with a replaced field does not survive serialise-then-parse"
 		}
 		return ""
 	}
